@@ -6,6 +6,8 @@ kind: this pass infers a kind for every expression (declared type of variables a
 callee, key / mapped kind of the dictionaries) and reports every place where two different kinds meet: an argument
 handed to a parameter of another kind, a dictionary indexed with the wrong kind, a comparison or an assignment across
 kinds."""
+import re
+
 from . import ir
 
 KINDS = {'Index': 'MAT', 'ID_index': 'ID', 'Pos_index': 'POS'}
@@ -28,13 +30,21 @@ def elem_kind_of_type(t, table=None):
 
 
 class KindChecker:
-    def __init__(self, functions, containers, extra_sigs=None, kinds_table=None):
-        """functions: IR records of the class family; containers: name -> (key kind, mapped kind)"""
+    def __init__(self, functions, containers, extra_sigs=None, kinds_table=None, name_kinds=None,
+                 receiver_maps=None, check_returns=False):
+        """functions: IR records of the class family; containers: name -> (key kind, mapped kind);
+        name_kinds: [(regex on the parameter name, kind)] for parameters whose declared typedef does not carry the
+        kind the documentation gives them; receiver_maps: member name -> {kind: kind} applied to the parameter kinds
+        of calls made on that member (a sub-matrix whose rows are addressed in another index space);
+        check_returns: the value of every return statement has the kind of the declared return type"""
         self.containers = containers
         self.kt = kinds_table
+        self.name_kinds = [(re.compile(rx), k) for rx, k in (name_kinds or [])]
+        self.receiver_maps = receiver_maps or {}
+        self.check_returns = check_returns
         self.sigs = {}
         for f in functions:
-            ks = [kind_of_type(p.get('t'), self.kt) for p in f.get('params', [])]
+            ks = [self.param_kind(p) for p in f.get('params', [])]
             rk = kind_of_type(f.get('ret'), self.kt)
             key = (f['name'], len(ks))
             if key in self.sigs and self.sigs[key] != (ks, rk):
@@ -46,13 +56,21 @@ class KindChecker:
         for k, v in (extra_sigs or {}).items():
             self.sigs[k] = v
         self.reports = []
+        self.report_sigs = []
         self.checked = 0
+
+    def param_kind(self, p):
+        for rx, k in self.name_kinds:
+            if rx.fullmatch(p.get('n') or ''):
+                return k
+        return kind_of_type(p.get('t'), self.kt)
 
     def run(self, fn):
         env = {}
         for p in fn.get('params', []):
-            env[p.get('id')] = ('scalar', kind_of_type(p.get('t'), self.kt), elem_kind_of_type(p.get('t'), self.kt))
+            env[p.get('id')] = ('scalar', self.param_kind(p), elem_kind_of_type(p.get('t'), self.kt))
         self.fn = fn
+        self.ret_kind = kind_of_type(fn.get('ret'), self.kt)
         self.walk(fn.get('body'), env)
 
     # environment entries: ('scalar', kind, element kind) | ('pair', key kind, mapped kind) | ('iter', key, mapped)
@@ -63,9 +81,19 @@ class KindChecker:
         if k == 'LambdaExpr':
             env2 = dict(env)
             for p in n.get('params', []):
-                env2[p.get('id')] = ('scalar', kind_of_type(p.get('t'), self.kt), elem_kind_of_type(p.get('t'), self.kt))
+                env2[p.get('id')] = ('scalar', self.param_kind(p), elem_kind_of_type(p.get('t'), self.kt))
+            saved, self.ret_kind = self.ret_kind, None
             self.walk(n.get('body'), env2)
+            self.ret_kind = saved
             return
+        if k == 'ReturnStmt' and self.check_returns and self.ret_kind and (n.get('value') or n.get('c')):
+            rv = n.get('value') or n['c'][0]
+            vk = self.kind(rv, env)
+            if vk:
+                self.checked += 1
+                if vk != self.ret_kind:
+                    self.report(n, 'returns %s (%s) as a %s value' % (ir.show(rv)[:50], vk, self.ret_kind),
+                                'ret:%s->%s' % (vk, self.ret_kind))
         if k == 'CXXForRangeStmt':
             v = n.get('var') or {}
             rk = self.range_kind(n.get('range'), env)
@@ -76,11 +104,22 @@ class KindChecker:
                 ek = rk[1] if rk else None
                 if dk and ek and dk != ek:
                     self.report(n, 'the loop variable %s is declared as %s but the range holds %s' % (
-                        v.get('n'), dk, ek))
+                        v.get('n'), dk, ek), 'loopvar:%s<-%s' % (dk, ek))
                 env[v.get('id')] = ('scalar', dk or ek, None)
             self.walk(n.get('range'), env)
             self.walk(n.get('body'), env)
             return
+        if k == 'ForStmt':
+            # `for (T i = ..; i < C.size(); ++i)` over a tracked dictionary C: i ranges over the keys of C, whatever
+            # the typedef it was declared with
+            rk = self.range_loop_kind(n, env)
+            if rk:
+                var, kk = rk
+                self.walk(var.get('init'), env)
+                env[var.get('id')] = ('scalar', kk, None)
+                for slot in ('cond', 'inc', 'body'):
+                    self.walk(n.get(slot), env)
+                return
         if k == 'VarDecl':
             dk = kind_of_type(n.get('t'), self.kt)
             init = n.get('init')
@@ -97,7 +136,7 @@ class KindChecker:
                     return
                 if dk and ik and dk != ik:
                     self.report(n, '%s is declared as %s but initialised with a %s value (%s)' % (
-                        n.get('n'), dk, ik, ir.show(init)[:60]))
+                        n.get('n'), dk, ik, ir.show(init)[:60]), 'init:%s<-%s' % (dk, ik))
                 env[n.get('id')] = ('scalar', dk or ik, elem_kind_of_type(n.get('t'), self.kt))
             else:
                 env[n.get('id')] = ('scalar', dk, elem_kind_of_type(n.get('t'), self.kt))
@@ -105,6 +144,22 @@ class KindChecker:
         for ch in ir.kids(n):
             self.walk(ch, env)
         self.check_node(n, env)
+
+    def range_loop_kind(self, n, env):
+        init, cond = n.get('init'), ir.skipcasts(n.get('cond'))
+        if init is None or cond is None or init.get('k') != 'DeclStmt' or len(init.get('decls', [])) != 1:
+            return None
+        var = init['decls'][0]
+        if var.get('k') != 'VarDecl' or cond.get('k') != 'BinaryOperator' or cond.get('op') != '<':
+            return None
+        a, b = [ir.skipcasts(x) for x in cond['c']]
+        if a is None or a.get('k') != 'DeclRefExpr' or a.get('id') != var.get('id'):
+            return None
+        if ir.is_call(b) and ir.call_name(b) == 'size' and not ir.call_args(b):
+            c = self.container_of(ir.call_receiver(b), env)
+            if c and c[0]:
+                return var, c[0]
+        return None
 
     def alias(self, e):
         e = ir.skipcasts(e)
@@ -161,6 +216,9 @@ class KindChecker:
                     if en and en[0] in ('pair', 'iter'):
                         return en[1] if e['n'] == 'first' else en[2]
             return kind_of_type(e.get('t'), self.kt)
+        if k == 'ArraySubscriptExpr' and len(c) == 2:
+            cont = self.container_of(c[0], env)
+            return cont[1] if cont else None
         if k in ('BinaryOperator',) and e.get('op') in ('+', '-') and len(c) == 2:
             a, b = self.kind(c[0], env), self.kind(c[1], env)
             return a or b
@@ -186,13 +244,34 @@ class KindChecker:
                 return cont[1] if cont else None
             sig = self.sigs.get((name, len(args)))
             if sig:
-                return sig[1]
+                return self.receiver_map(e).get(sig[1], sig[1])
             if name in ('move', 'forward', 'exchange') and args:
                 return self.kind(args[0], env)
         return None
 
-    def report(self, node, msg):
+    def receiver_map(self, call):
+        r = ir.skipcasts(ir.call_receiver(call))
+        while r is not None:
+            if r.get('k') in ir.MEMBER_KINDS + ('DeclRefExpr', 'DependentScopeDeclRefExpr') and \
+                    r.get('n') in self.receiver_maps:
+                return self.receiver_maps[r['n']]
+            if ir.is_call(r):
+                return {}
+            c = r.get('c') or []
+            r = ir.skipcasts(c[0]) if c else None
+        return {}
+
+    def cont_name(self, e, env):
+        e = ir.skipcasts(e)
+        if e is not None and e.get('k') == 'DeclRefExpr' and env.get(e.get('id'), (None,))[0] == 'container':
+            return env[e['id']][1]
+        return self.alias(e) or '?'
+
+    def report(self, node, msg, sig=None):
+        """msg is for the reader; sig is a stable descriptor of the meeting (category, member / callee names and the
+        two kinds, no local names) used to key tables and known findings"""
         self.reports.append((node, msg))
+        self.report_sigs.append(sig or msg)
 
     def check_node(self, n, env):
         k = n.get('k')
@@ -203,7 +282,18 @@ class KindChecker:
             if a and b:
                 self.checked += 1
                 if a != b:
-                    self.report(n, '%s (%s) %s %s (%s)' % (ir.show(c[0])[:50], a, n['op'], ir.show(c[1])[:50], b))
+                    self.report(n, '%s (%s) %s %s (%s)' % (ir.show(c[0])[:50], a, n['op'], ir.show(c[1])[:50], b),
+                                '%s:%s:%s' % ('assign' if n['op'] in ('=', '+=', '-=') else 'cmp', a, b))
+        if k == 'ArraySubscriptExpr' and len(c) == 2:
+            cont = self.container_of(c[0], env)
+            ak = self.kind(c[1], env)
+            if cont and cont[0] and ak:
+                self.checked += 1
+                if ak != cont[0]:
+                    self.report(n, '%s is indexed by %s but %s is a %s value' % (
+                        ir.show(c[0])[:40], cont[0], ir.show(c[1])[:50], ak),
+                        'key:%s:%s->%s' % (self.cont_name(c[0], env), ak, cont[0]))
+            return
         if ir.is_call(n):
             name = ir.call_name(n)
             args = ir.call_args(n)
@@ -214,7 +304,8 @@ class KindChecker:
                     self.checked += 1
                     if ak != cont[0]:
                         self.report(n, '%s is indexed by %s but %s is a %s value' % (
-                            ir.show(args[0])[:40], cont[0], ir.show(args[1])[:50], ak))
+                            ir.show(args[0])[:40], cont[0], ir.show(args[1])[:50], ak),
+                            'key:%s:%s->%s' % (self.cont_name(args[0], env), ak, cont[0]))
                 return
             if name in ('at', 'find', 'erase', 'count', 'emplace', 'try_emplace'):
                 cont = self.container_of(ir.call_receiver(n), env)
@@ -224,21 +315,25 @@ class KindChecker:
                         self.checked += 1
                         if ak != cont[0]:
                             self.report(n, '%s.%s is keyed by %s but %s is a %s value' % (
-                                ir.show(ir.call_receiver(n))[:40], name, cont[0], ir.show(args[0])[:50], ak))
+                                ir.show(ir.call_receiver(n))[:40], name, cont[0], ir.show(args[0])[:50], ak),
+                                'key:%s:%s->%s' % (self.cont_name(ir.call_receiver(n), env), ak, cont[0]))
                     if name in ('emplace', 'try_emplace') and len(args) == 2 and cont[1]:
                         vk = self.kind(args[1], env)
                         if vk:
                             self.checked += 1
                             if vk != cont[1]:
                                 self.report(n, '%s maps to %s but %s is a %s value' % (
-                                    ir.show(ir.call_receiver(n))[:40], cont[1], ir.show(args[1])[:50], vk))
+                                    ir.show(ir.call_receiver(n))[:40], cont[1], ir.show(args[1])[:50], vk),
+                                    'mapped:%s:%s->%s' % (self.cont_name(ir.call_receiver(n), env), vk, cont[1]))
                 return
             sig = self.sigs.get((name, len(args)))
             if sig:
+                rmap = self.receiver_map(n)
                 for i, (a, pk) in enumerate(zip(args, sig[0])):
                     ak = self.kind(a, env)
+                    pk = rmap.get(pk, pk)
                     if ak and pk:
                         self.checked += 1
                         if ak != pk:
                             self.report(n, 'argument %d of %s expects %s but %s is a %s value' % (
-                                i + 1, name, pk, ir.show(a)[:50], ak))
+                                i + 1, name, pk, ir.show(a)[:50], ak), 'arg%d:%s:%s->%s' % (i + 1, name, ak, pk))
